@@ -19,7 +19,7 @@ def foldSet (m : AL String Nat) (es : List (String × Nat)) : AL String Nat :=
 /-- effect of one executed directive on the two dictionaries -/
 def replayDictS (D : Defs) (op : OpInst) (d : SDir) (p : DP) : DP :=
   match d with
-  | .attr name isProp optional _ dflt =>
+  | .attr name isProp optional dflt =>
     match dictGet isProp op name with
     | none => p
     | some v => if optional && dflt == some v then p else setDP isProp p name v
@@ -33,7 +33,7 @@ def replayDictS (D : Defs) (op : OpInst) (d : SDir) (p : DP) : DP :=
 theorem dp_replayS (D : Defs) (op : OpInst) (d : SDir) (st : PState) :
     dp (replayS D op d st) = replayDictS D op d (dp st) := by
   cases d <;> simp [replayS, replayDictS, dp, dictState, foldSet]
-  case attr name isProp optional optParse dflt =>
+  case attr name isProp optional dflt =>
     cases dictGet isProp op name with
     | none => simp
     | some v =>
@@ -200,7 +200,7 @@ def soundDir (op : OpInst) : SDir → Prop
 theorem soundP_replayDictS (D : Defs) (op : OpInst) (d : SDir) (p : DP) (hd : soundDir op d)
     (h : SoundP op p) : SoundP op (replayDictS D op d p) := by
   cases d with
-  | attr name isProp optional optParse dflt =>
+  | attr name isProp optional dflt =>
     simp only [replayDictS]
     cases hg : dictGet isProp op name with
     | none => exact h
@@ -264,7 +264,7 @@ theorem hasP_setDP_hit (isProp : Bool) (p : DP) (n : String) (v : Nat) : HasP is
 theorem hasP_replayDictS_mono (D : Defs) (op : OpInst) (d : SDir) (p : DP) (isProp : Bool) (n : String)
     (h : HasP isProp n p) : HasP isProp n (replayDictS D op d p) := by
   cases d with
-  | attr name ip optional optParse dflt =>
+  | attr name ip optional dflt =>
     simp only [replayDictS]
     cases dictGet ip op name with
     | none => exact h
@@ -301,7 +301,7 @@ theorem hasP_replayDictSeq_hit (D : Defs) (op : OpInst) (ds : List SDir) (p : DP
 
 /-- directive `d` is responsible for entry `n` of the property (`isProp`) / attribute dictionary -/
 def coversS (D : Defs) (isProp : Bool) (n : String) : SDir → Bool
-  | .attr name ip _ _ dflt => name == n && ip == isProp && dflt == defaultOf D isProp n
+  | .attr name ip _ dflt => name == n && ip == isProp && dflt == defaultOf D isProp n
   | .unitAttr name ip _ => name == n && ip == isProp
   | .attrDict _ res exp => !res.contains n && (exp.contains n == isProp)
   | _ => false
@@ -310,7 +310,7 @@ theorem hasP_of_covers (D : Defs) (op : OpInst) (d : SDir) (isProp : Bool) (n : 
     (hc : coversS D isProp n d = true) (hg : dictGet isProp op n = some v)
     (hnd : defaultOf D isProp n ≠ some v) (q : DP) : HasP isProp n (replayDictS D op d q) := by
   cases d with
-  | attr name ip optional optParse dflt =>
+  | attr name ip optional dflt =>
     simp only [coversS, Bool.and_eq_true, beq_iff_eq] at hc
     obtain ⟨⟨rfl, rfl⟩, rfl⟩ := hc
     have : (defaultOf D ip name == some v) = false := by simpa using hnd
@@ -372,7 +372,7 @@ theorem exec_or_empty (op : OpInst) (fmt : List Dir) (K : List Cls) (d : SDir)
     | group a f r e =>
       have hwf0 := hwf
       simp only [wfD, Bool.and_eq_true] at hwf
-      obtain ⟨⟨⟨⟨⟨⟨⟨⟨⟨⟨_, _⟩, _⟩, _⟩, hing⟩, hinge⟩, _⟩, _⟩, _⟩, _⟩, _⟩ := hwf
+      obtain ⟨⟨⟨⟨⟨⟨⟨⟨⟨_, _⟩, _⟩, _⟩, hing⟩, hinge⟩, _⟩, _⟩, _⟩, _⟩ := hwf
       obtain ⟨_, _, hcons, hv4⟩ := hv
       simp only [allS, List.mem_append] at hd
       simp only [execS, List.mem_append]
@@ -402,7 +402,7 @@ theorem hasP_final (D : Defs) (op : OpInst) (fmt : List Dir) (K : List Cls) (p :
   · exact hasP_replayDictSeq_hit D op _ p isProp n d hx (hasP_of_covers D op d isProp n v hc hg hnd)
   · exfalso
     cases d with
-    | attr name ip optional optParse dflt =>
+    | attr name ip optional dflt =>
       simp only [coversS, Bool.and_eq_true, beq_iff_eq] at hc
       obtain ⟨⟨rfl, rfl⟩, rfl⟩ := hc
       simp only [emptyS] at he
